@@ -35,6 +35,14 @@ CHECKS = {
    text="Seeded exploration: hostile inputs to every director-less service (1-3 interleaved connections, grammar dialogues, mutations, raw bytes) ended by client close / reset / half-close / silence / a stalled peer, and histories of N<=200 sequential connections (incl. FTP passive sockets never connected to); afterwards the fake clock runs 10 simulated minutes. Checked: the server closed its side of every connection; the census of this run's goroutines with honeytrap frames (by creation site), the simulated kernel's listening sockets and the process's file descriptors equal the post-boot baseline; a handler that keeps spinning is caught by the driver's CPU watchdog.",
    ref="§3 C09", tech=TECH + "resource-census oracle (goroutines by creation site, simulated listening sockets, fds) after a fake-clock drain; bounded-liveness of handlers once the peer is gone",
    note="Goroutines are attributed to a run by synctest bubble id; retained heap is not asserted; CPU watchdog thresholds are in CPU seconds, far above legitimate steps."),
+ "C01": dict(
+   text="Seeded exploration: 1-3 services of the registry (all 24 director-less services in rotation) with 1-4 interleaved connections per service instance carrying grammar dialogues, truncations, mutations (length fields, reordering, repetition, out-of-state commands) or raw bytes under seeded segmentation, ended by close / reset / half-close / silence past the idle deadline / stalled peer. Oracles: the worker process survives (exit status and panic:/fatal error: banners are observed by the driver, which re-runs the seed alone in a fresh process and minimises it), no step exceeds the CPU/RSS budgets (runaway handlers), and a fresh connection to an echo port is still served afterwards.",
+   ref="§3 C01", tech=TECH + "process-level crash/hang/memory oracle by a watching driver + in-simulation liveness probe; client reset/half-close/idle/stall faults",
+   note="Budgets are in CPU seconds / RSS, orders of magnitude above legitimate steps; interleavings finer than a delivered segment only via same-step batch release; the race-detector tier is not built yet."),
+ "C03": dict(
+   text="Seeded exploration of 2-3 (history: up to 20) scripted sessions with distinct client addresses and session-unique tags on one shared service instance (ldap, ftp incl. logged-in sessions with directory changes, smtp, telnet, redis, memcached, http, tftp), interleaved at request/response granularity by the choice tape (systematically enumerated for a third of the thorough runs), with idle and reset sessions. Oracles: solo-run equivalence (every session's transcript and the events carrying its address equal those of the same script alone on a fresh server) and tag ownership (no client receives, and no event attributed to it contains, another session's tag).",
+   ref="§3 C03", tech=TECH + "metamorphic solo-run equivalence + tag-ownership oracle over interleaved session histories",
+   note="Granularity: one command per scheduler step; FTP transcripts compared as line multisets with host temp paths masked."),
 }
 NA = {
  "C17": "pure functions of a byte buffer (decoder methods, ipp decode/encode): no schedule, clock, fault or interleaving to simulate (DESIGN §4)",
